@@ -44,8 +44,17 @@ func (er *ErrorReader) Read(b []byte) (n int, err error) {
 	return n, err
 }
 
+// Drain discards what is left of the current reader. When that reader is the
+// length-limited reader of a message or union body, running out of input
+// before the declared length is a truncated record.
 func (er *ErrorReader) Drain() {
-	_, _ = io.ReadAll(er.Reader)
+	_, err := io.ReadAll(er.Reader)
+	if lr, ok := er.Reader.(*io.LimitedReader); ok && err == nil && lr.N > 0 {
+		err = io.ErrUnexpectedEOF
+	}
+	if err != nil && er.Err == nil {
+		er.Err = err
+	}
 }
 
 // An ErrorWriter wraps an io.Writer with a reusable buffer for small allocations
